@@ -181,7 +181,8 @@ def cross_curve(ctx, rng):
     keys = {c: Key.from_secret_exponent(gen_secret(rng, c), c) for c in (b'ed', b'sp', b'p2')}
     msg = b'cross-curve'
     for c1, k1 in keys.items():
-        sig = k1.sign(msg, generic=True)
+      for generic in (True, False):
+        sig = k1.sign(msg, generic=generic)
         for c2, k2 in keys.items():
             if c1 == c2:
                 continue
